@@ -40,7 +40,7 @@ impl Property for C17 {
         "exploration"
     }
     fn rule(&self) -> String {
-        "case = (suite, n, t, identifier style, key source, signer set, message, randomizer mode in {seed drawn by the coordinator, \
+        "case = (suite, n, t, identifier style, key source, signer set, message, randomizer mode in {seed drawn by the coordinator, seed of 0/1/15/16/31/33/64/300 bytes chosen by the coordinator, \
          explicit random randomizer, explicit zero}, seeds). Checked per case: participants' regenerated parameters equal the \
          coordinator's, randomized key = key + alpha*G, signing and aggregation succeed, the signature verifies under the randomized key \
          (library + independent verifier) and not under the original one (alpha != 0); the randomizer changes when the seed (bit flip, \
@@ -64,7 +64,8 @@ impl Property for C17 {
             (Tier::Thorough, false) => 4000,
             (Tier::Thorough, true) => 500,
         };
-        (0..3).map(|s| (s, per)).collect()
+        // strata: randomizer modes; 3 = seed chosen by the coordinator with an arbitrary length (0, 1, 15, 16, 31, 33, 64, 300 bytes)
+        (0..4).map(|s| (s, if s == 3 { per / 2 } else { per })).collect()
     }
     fn chunk(&self, suite: SuiteId) -> u32 {
         if suite.slow() { 2 } else { 8 }
@@ -91,6 +92,8 @@ impl Property for C17 {
             ("mode:seed".into(), m),
             ("mode:explicit".into(), m),
             ("mode:zero".into(), m),
+            ("mode:chosen-seed".into(), m / 2),
+            ("seed-length:0".into(), 3),
             ("tamper:seed-bitflip".into(), m),
             ("tamper:commitment".into(), m),
             ("tamper:participant-uses-wrong-seed".into(), m),
@@ -118,8 +121,8 @@ fn check<C: Suite>(case: &Case, ctx: &mut Ctx) -> CheckResult {
     let msg = case.msg.bytes();
     let vk = *keys.pubkeys.verifying_key();
     let mut rng = Sm(case.seed ^ 0xc17);
-    let mode = case.mode % 3;
-    let mname = ["seed", "explicit", "zero"][mode as usize];
+    let mode = case.mode % 4;
+    let mname = ["seed", "explicit", "zero", "chosen-seed"][mode as usize];
     ctx.label(&format!("mode:{mname}"));
     let trivial = mode == 0 && shape.n == 5 && shape.t == 3 && case.ids.style == IdStyle::Default && subset_is_prefix(&sub) && m == 3;
     ctx.eval(&format!("{},{},{m},{mname},{},run", shape.n, shape.t, case.ids.style.name()), !trivial);
@@ -138,6 +141,14 @@ fn check<C: Suite>(case: &Case, ctx: &mut Ctx) -> CheckResult {
             (p, Some(s))
         }
         1 => (RandomizedParams::from_randomizer(&vk, Randomizer::from_scalar(sc_rand_nonzero::<C>(rng.next()))), None),
+        3 => {
+            // "for every randomizer seed": any byte string, also the empty one
+            let len = [0usize, 1, 15, 16, 31, 33, 64, 300][(case.seed >> 7) as usize % 8];
+            let s = rng.bytes(len);
+            ctx.label(&format!("seed-length:{len}"));
+            let p = RandomizedParams::<C>::regenerate_from_seed_and_commitments(&vk, &s, package.signing_commitments()).map_err(|e| Failure { key: "C17/regenerate-failed".into(), msg: format!("seed of {len} bytes: {e:?}") })?;
+            (p, Some(s))
+        }
         _ => (RandomizedParams::from_randomizer(&vk, Randomizer::from_scalar(zero::<C>())), None),
     };
     let alpha = sc_from_bytes::<C>(&params.randomizer().serialize()).ok_or_else(|| inconclusive("randomizer bytes"))?;
@@ -204,7 +215,7 @@ fn check<C: Suite>(case: &Case, ctx: &mut Ctx) -> CheckResult {
         let regen = |s: &[u8], c: &BTreeMap<Id<C>, SigningCommitments<C>>| Randomizer::<C>::regenerate_from_seed_and_commitments(s, c).ok().map(|r| r.serialize());
         // seed: every single-bit flip (quick: 16 sampled), truncation, extension, another seed
         let nbits = seed.len() * 8;
-        let bits: Vec<usize> = if ctx.tier == Tier::Quick { (0..16).map(|_| rng.below(nbits as u64) as usize).collect() } else { (0..nbits).collect() };
+        let bits: Vec<usize> = if nbits == 0 { vec![] } else if ctx.tier == Tier::Quick { (0..16).map(|_| rng.below(nbits as u64) as usize).collect() } else { (0..nbits.min(512)).collect() };
         for b in bits {
             let mut s2 = seed.clone();
             s2[b / 8] ^= 1 << (b % 8);
@@ -212,7 +223,11 @@ fn check<C: Suite>(case: &Case, ctx: &mut Ctx) -> CheckResult {
             ctx.label("tamper:seed-bitflip");
             ensure!(ctx, regen(&s2, &comms) != Some(base.clone()), "C17/randomizer-ignores-seed", "flipping seed bit {b} does not change the randomizer ({desc})");
         }
-        for (name, s2) in [("truncated", seed[..seed.len() - 1].to_vec()), ("extended", [seed.clone(), vec![0]].concat()), ("other", rng.bytes(seed.len())), ("empty", vec![])] {
+        let other_len = seed.len().max(1);
+        for (name, s2) in [("truncated", seed[..seed.len().saturating_sub(1)].to_vec()), ("extended", [seed.clone(), vec![0]].concat()), ("other", rng.bytes(other_len)), ("empty", vec![])] {
+            if s2 == *seed {
+                continue;
+            }
             ctx.eval(&format!("{},{},{m},tamper,seed-{name}", shape.n, shape.t), true);
             ensure!(ctx, regen(&s2, &comms) != Some(base.clone()), "C17/randomizer-ignores-seed", "a {name} seed gives the same randomizer ({desc})");
         }
@@ -249,8 +264,12 @@ fn check<C: Suite>(case: &Case, ctx: &mut Ctx) -> CheckResult {
             ctx.label("tamper:participant-uses-wrong-seed");
             let victim = signers[rng.below(m as u64) as usize];
             let mut s2 = seed.clone();
-            let b = rng.below(nbits as u64) as usize;
-            s2[b / 8] ^= 1 << (b % 8);
+            if nbits == 0 {
+                s2.push(1);
+            } else {
+                let b = rng.below(nbits as u64) as usize;
+                s2[b / 8] ^= 1 << (b % 8);
+            }
             if let Ok(bad) = rr::sign_with_randomizer_seed::<C>(&package, &nonces[&victim], &keys.kps[&victim], &s2) {
                 let mut sub2 = shares.clone();
                 sub2.insert(victim, bad);
